@@ -172,6 +172,65 @@ func c04R2R3(p *Prog, r *Report) {
 					}
 				}
 			}
+			// the same table written as nested loops over row, column and error/feedback:
+			// word = e + 2*(c + r*ncols), channel = e + 2*r + 2*nrows*c, with e < 2, r < nrows, c < ncols
+			if nested := func() bool {
+				var phis []string
+				for _, sym := range val.Symbols() {
+					if strings.HasPrefix(sym, "phi#") {
+						phis = append(phis, sym)
+					}
+				}
+				var nrows, ncols string
+				for _, sym := range append(idx.Symbols(), val.Symbols()...) {
+					if strings.HasSuffix(basePath(sym), ".nrows") {
+						nrows = sym
+					}
+					if strings.HasSuffix(basePath(sym), ".ncols") {
+						ncols = sym
+					}
+				}
+				if len(phis) != 4 || nrows == "" || ncols == "" {
+					return false
+				}
+				bound := func(phi string) Poly {
+					ph, _ := pc.symVal[phi].(*ssa.Phi)
+					if ph == nil {
+						return nil
+					}
+					for _, ref := range *ph.Referrers() {
+						if bo, ok := ref.(*ssa.BinOp); ok && bo.Op == token.LSS && bo.X == ssa.Value(ph) {
+							return pc.Of(bo.Y)
+						}
+					}
+					return nil
+				}
+				two := polyConst(2)
+				for _, e := range phis {
+					for _, rr := range phis {
+						for _, cc := range phis {
+							for _, pv := range phis {
+								if e == rr || e == cc || e == pv || rr == cc || rr == pv || cc == pv {
+									continue
+								}
+								wantVal := polySym(e).Add(polySym(cc).Mul(two)).Add(polySym(rr).Mul(polySym(ncols)).Mul(two)).Add(polySym(pv))
+								wantIdx := polySym(e).Add(polySym(rr).Mul(two)).Add(polySym(cc).Mul(polySym(nrows)).Mul(two)).Add(polySym(pv))
+								if !val.Equal(wantVal) || !idx.Equal(wantIdx) {
+									continue
+								}
+								be, br, bc := bound(e), bound(rr), bound(cc)
+								if be != nil && br != nil && bc != nil && be.Equal(two) && br.Equal(polySym(nrows)) && bc.Equal(polySym(ncols)) {
+									return true
+								}
+							}
+						}
+					}
+				}
+				return false
+			}(); nested {
+				okFill = true
+				return
+			}
 			if w == "" || prev == "" || len(val) != 2 {
 				return
 			}
@@ -606,11 +665,12 @@ func c04R5(p *Prog, r *Report) {
 		if !ok {
 			return
 		}
-		bo, ok := iff.Cond.(*ssa.BinOp)
-		if !ok || bo.Op != token.LSS {
+		// len(b) < k*frameSize, however it is spelled (operands swapped, negated)
+		lx, ly, shortSucc, ok := strictLess(iff.Cond)
+		if !ok {
 			return
 		}
-		rhs := pc.Of(bo.Y)
+		rhs := pc.Of(ly)
 		if len(rhs) != 1 {
 			return
 		}
@@ -618,12 +678,12 @@ func c04R5(p *Prog, r *Report) {
 			if !strings.Contains(sym, "frameSize") || strings.Contains(sym, "*") {
 				return
 			}
-			if !strings.HasPrefix(pc.Of(bo.X).String(), "len(") {
+			if !strings.HasPrefix(pc.Of(lx).String(), "len(") {
 				return
 			}
 			minDesc = fmt.Sprintf("reads shorter than %d frames are skipped", k)
 			// the short branch releases nothing
-			short := iff.Block().Succs[0]
+			short := iff.Block().Succs[shortSucc]
 			rel := false
 			for _, x := range short.Instrs {
 				if cc := CallOf(x); cc != nil && cc.IsInvoke() && cc.Method.Name() == "ReleaseBytes" {
@@ -634,7 +694,7 @@ func c04R5(p *Prog, r *Report) {
 			search := false
 			Instrs(fn, func(x ssa.Instruction) {
 				if c, ok := x.(*ssa.Call); ok && c.Call.StaticCallee() != nil && c.Call.StaticCallee().Name() == "FindFrameBits" {
-					if iff.Block().Succs[1] == c.Block() || iff.Block().Succs[1].Dominates(c.Block()) {
+					if long := iff.Block().Succs[1-shortSucc]; long == c.Block() || long.Dominates(c.Block()) {
 						search = true
 					}
 				}
